@@ -699,6 +699,30 @@ pub fn decode(data: &[u8]) -> RedisCase {
     let tag = data.first().copied().unwrap_or(0);
     let rest = if data.len() > 1 { &data[1..] } else { &[][..] };
     let urls: Vec<String> = rest.split(|b| *b == 0xff).map(|c| String::from_utf8_lossy(c).to_string()).collect();
+    if tag % 4 == 3 {
+        // connection-description round trips built from the bytes
+        let text = |i: usize| urls.get(i).cloned();
+        let b = |i: usize| rest.get(i).copied().unwrap_or(0);
+        let addr = match b(0) % 3 {
+            0 => AddrCase::Tcp(text(0).unwrap_or_default(), u16::from_be_bytes([b(1), b(2)])),
+            1 => AddrCase::TcpTls {
+                host: text(0).unwrap_or_default(),
+                port: u16::from_be_bytes([b(1), b(2)]),
+                insecure: b(3) & 1 == 1,
+            },
+            _ => AddrCase::Unix(text(0).unwrap_or_default()),
+        };
+        return RedisCase::RoundTrip {
+            conn: ConnCase {
+                addr,
+                db: i64::from(b(4)) - 8,
+                username: if b(5) & 1 == 1 { text(1) } else { None },
+                password: if b(5) & 2 == 2 { text(2) } else { None },
+                resp3: b(5) & 4 == 4,
+            },
+            from_redis: tag & 8 != 0,
+        };
+    }
     match tag % 3 {
         0 => RedisCase::Standalone {
             url: urls.first().cloned(),
